@@ -328,4 +328,80 @@ theorem phi_eq_shapleyOrd {n i : Nat} (hi : i < n) (v : Nat → α) : phi n v i 
     rfl
 
 end
+
+/-! ### an executable enumeration of the orderings (first-element recursion) -/
+
+/-- all orderings of `l`, choosing the first element in every possible way (`k` = fuel = length) -/
+def orderingsAux : Nat → List Nat → List (List Nat)
+  | 0, _ => [[]]
+  | k + 1, l => l.flatMap (fun x => (orderingsAux k (l.erase x)).map (fun τ => x :: τ))
+
+def orderings (l : List Nat) : List (List Nat) := orderingsAux l.length l
+
+theorem mem_orderingsAux : ∀ (k : Nat) (l σ : List Nat), l.length = k → (σ ∈ orderingsAux k l ↔ σ.Perm l) := by
+  intro k
+  induction k with
+  | zero =>
+    intro l σ hl
+    rw [List.length_eq_zero_iff] at hl
+    subst hl
+    simp [orderingsAux]
+  | succ k ih =>
+    intro l σ hl
+    simp only [orderingsAux, List.mem_flatMap, List.mem_map]
+    constructor
+    · rintro ⟨x, hx, τ, hτ, rfl⟩
+      have := (ih (l.erase x) τ (by rw [List.length_erase_of_mem hx, hl, Nat.add_sub_cancel])).mp hτ
+      exact List.cons_perm_iff_perm_erase.mpr ⟨hx, this⟩
+    · intro hσ
+      cases σ with
+      | nil =>
+        have := hσ.length_eq
+        simp [hl] at this
+      | cons x τ =>
+        obtain ⟨hx, hτ⟩ := List.cons_perm_iff_perm_erase.mp hσ
+        exact ⟨x, hx, τ, (ih (l.erase x) τ (by rw [List.length_erase_of_mem hx, hl, Nat.add_sub_cancel])).mpr hτ, rfl⟩
+
+theorem nodup_orderingsAux : ∀ (k : Nat) (l : List Nat), l.length = k → l.Nodup → (orderingsAux k l).Nodup := by
+  intro k
+  induction k with
+  | zero => intro l _ _; simp [orderingsAux]
+  | succ k ih =>
+    intro l hl hnd
+    simp only [orderingsAux]
+    rw [List.nodup_flatMap]
+    constructor
+    · intro x hx
+      apply List.Nodup.map
+      · intro a b h; exact (List.cons.inj h).2
+      · exact ih (l.erase x) (by rw [List.length_erase_of_mem hx, hl, Nat.add_sub_cancel]) (hnd.erase x)
+    · apply hnd.pairwise_of_forall_ne
+      intro x _ y _ hxy σ hσx hσy
+      obtain ⟨_, _, rfl⟩ := List.mem_map.mp hσx
+      obtain ⟨_, _, h⟩ := List.mem_map.mp hσy
+      exact hxy (List.cons.inj h).1.symm
+
+/-- summing over the executable enumeration = summing over Mathlib's `permutations` -/
+theorem sum_orderings {M : Type} [AddCommMonoid M] {l : List Nat} (hl : l.Nodup) (f : List Nat → M) :
+    ((orderings l).map f).sum = (l.permutations.map f).sum := by
+  unfold orderings
+  rw [← List.sum_toFinset f (nodup_orderingsAux _ l rfl hl),
+    ← List.sum_toFinset f (List.nodup_permutations l hl)]
+  congr 1
+  ext σ
+  simp only [List.mem_toFinset, List.mem_permutations]
+  exact mem_orderingsAux _ l σ rfl
+
+section
+variable {α : Type} [Field α]
+
+/-- `shapleyOrd` with the executable enumeration -/
+def shapleyOrdE (n : Nat) (v : Nat → α) (i : Nat) : α :=
+  (((orderings (List.range n)).map (fun σ => marginal v σ i)).sum) / (n.factorial : α)
+
+theorem shapleyOrdE_eq (n : Nat) (v : Nat → α) (i : Nat) : shapleyOrdE n v i = shapleyOrd n v i := by
+  unfold shapleyOrdE shapleyOrd
+  rw [sum_orderings List.nodup_range]
+
+end
 end ICG
